@@ -102,7 +102,7 @@ NOT_YET = {}
 # what is added to the level text about process environments (DESIGN 3.1a) and the last directed additions
 ENVIRONMENTS = {
     'C01': 'One list of 1100 and of 3000 postings per scheme; setups refused part-way by the same scheme object before every fourth case. A subset of the units again under python -O.',
-    'C02': 'The whole universe of one-byte and of two-byte keywords searched against databases of such keywords. A subset of the units again under python -O and with a HOME in which nothing can be created.',
+    'C02': 'Every sequence of <= 3 (thorough 4) searches over two indexes built by one scheme object under one key x four keywords that ends in an absent keyword, second index built before any search or after the first. The whole universe of one-byte and of two-byte keywords searched against databases of such keywords. A subset of the units again under python -O and with a HOME in which nothing can be created.',
     'C03': 'Tokens and keys are generated until the first two bytes of their wire form have taken every one of the 65536 values; the first object with each prefix is round-tripped.',
     'C04': 'The same (K, DB) encrypted by three workers forked from a process that has already built an index: entries disjoint across processes.',
     'C05': 'A subset of the units again on hosts reporting 6 and 7 processors.',
@@ -114,7 +114,7 @@ ENVIRONMENTS = {
     'C11': 'A subset of the units again under python -O.',
     'C12': 'Three triples whose first connection stays for 70 virtual seconds (past every periodic timer) with two queued behind it.',
     'C13': 'The crash points of the two small workloads again as an ordinary user (uid 65534) instead of root.',
-    'C14': 'Three workers forked from a process that has used the cipher: IVs, ciphertexts and generated keys pairwise distinct across processes. Contract units again under python -O.',
+    'C14': 'Ciphertexts written by objects with a declared message length meet the full oracle and are read back by the undeclared object and by one declaring both lengths. Three workers forked from a process that has used the cipher: IVs, ciphertexts and generated keys pairwise distinct across processes. Contract units again under python -O.',
     'C15': 'Contract units again under python -O.',
     'C16': 'Contract units again under python -O.',
     'C17': 'A subset of the units again under python -O and under the C locale with UTF-8 mode off.',
@@ -133,6 +133,8 @@ def build():
         eng, tech, text, note, ref = CHECKS[pid]
         if pid in ENVIRONMENTS:
             text = text.rstrip() + ' ' + ENVIRONMENTS[pid]
+        if pid in ('C01', 'C02', 'C03', 'C04', 'C05', 'C07'):
+            text = text.rstrip() + ' Configuration grid at the quick tier: default point, small base point, every single-parameter departure and a strength-2 covering array over the axes (every pair of departures on two axes occurs together in some row); thorough: all pairwise products.'
         checks.append({
             'property_id': pid,
             'quick_cmd': './check %s quick' % pid,
